@@ -1,3 +1,4 @@
+import Ebu.Spec.Flow
 import Ebu.Generated.Consts
 import Ebu.Generated.SqlFacts
 import Ebu.Props.C03
@@ -95,5 +96,13 @@ theorem memory_log_in_offset_order : Ebu.Locks.MemAppendAtomic Ebu.Generated.acc
 /-- the model's default batch size is the one in the CURRENT source (extracted from Replay) -/
 theorem default_batch_matches_source : effBatch 0 = Ebu.Generated.Consts.replayDefaultBatch ∧ effBatch (-5) = Ebu.Generated.Consts.replayDefaultBatch := by
   decide
+
+/-! ### obligations on the control flow of the CURRENT source (`Ebu/Generated/Flow.lean`, regenerated from /repo on every run) -/
+
+/-- OBLIGATION: `Replay` never appends, publishes or subscribes; the paged loop stops on an empty page, has the stuck-offset guard, and inspects every callback result -/
+theorem flow_replay_shape : Ebu.Flow.replayShape = true := by decide +kernel
+
+/-- OBLIGATION: the SQLite batched stream inspects `rows.Err()` after the row loop and yields it -/
+theorem flow_sqlite_stream_checks_rows_err : Ebu.Flow.sqliteShape = true := by decide +kernel
 
 end Ebu.Props.C11
